@@ -177,6 +177,23 @@ def search(ctx):
                     ctx.violation('pipeline.nested_reuse', 'a pipeline object listed twice in a composition differs from applying its passes twice', input=req)
                 else:
                     ctx.count('pipeline:object_reused')
+        # idempotent passes separated by another idempotent pass (a user-defined one): nothing may be dropped
+        if j['outputs']:
+            for leaves in (['RRG+', 'KEEP1', 'RRG+'], ['RRG', 'KEEP1', 'RRG'], ['KEEP1', 'RRG', 'KEEP1', 'RRG+']):
+                for req in ({'c': j, 'mode': 'transform', 't': ['comp', leaves]}, {'c': j, 'mode': 'apply', 'ts': leaves}):
+                    ctx.case(json.dumps(['idem', j['gates'], j['outputs'], req['mode'], leaves]), nontriv)
+                    got = py_passes(req)
+                    cur = {'ok': j}
+                    for lf in leaves:
+                        cur = py_passes({'c': cur['ok'], 'mode': 'transform', 't': lf})
+                        if 'err' in cur:
+                            break
+                    if 'ok' in got and 'ok' in cur and not same(got['ok'], cur['ok']):
+                        ctx.violation('pipeline.sequencing', f'pipeline result differs from applying {leaves} one after another', input=req)
+                    elif ('err' in got) != ('err' in cur):
+                        ctx.violation('pipeline.error', f'pipeline {got.get("err")} vs sequencing {cur.get("err")}', input=req)
+                    else:
+                        ctx.count('pipeline:idempotent_interleaved')
         for heavy in (False, True):
             if heavy and len(j['inputs']) > 5:
                 continue
